@@ -495,7 +495,7 @@ fn main() {
     );
 
     // ---------------- seeded ----------------
-    let ncases = args.budget(40, 1200);
+    let ncases = args.budget(40, 500);
     for ci in 0..ncases {
         let ngen = rng.range(1, 3) as usize;
         let mut gens = vec![];
@@ -557,6 +557,40 @@ fn main() {
         cx.dist.hit(&format!("case.generations.{ngen}"));
         run_case(&mut cx, &format!("seed{} #{}", args.seed, ci), gens, picks);
     }
+    // ---------------- implementation-only stream: log rotation (known finding class) ----------------
+    let mut hits = Hits::default();
+    {
+        let dir = args.out.join("scratch");
+        fs::create_dir_all(&dir).unwrap();
+        let wal = dir.join("rotate.wal");
+        for i in 0..5 {
+            let _ = fs::remove_file(dir.join(format!("rotate.wal.{i}")));
+        }
+        let _ = fs::remove_file(&wal);
+        let cfg = tensor_chain::raft_wal::WalConfig { max_size_bytes: 120, ..tensor_chain::raft_wal::WalConfig::default() };
+        if let Ok(mut w) = RaftWal::open_with_config(&wal, cfg.clone()) {
+            let mut ok = w.append(&RaftWalEntry::TermAndVote { term: 7, voted_for: Some(nid(1)) }).is_ok();
+            for i in 1..=6u64 {
+                let entry_data = bitcode::serialize(&LogEntry::new(7, i, block(100 + i))).unwrap();
+                ok &= w.append(&RaftWalEntry::LogEntryFull { index: i, term: 7, entry_data }).is_ok();
+            }
+            drop(w);
+            if ok {
+                if let Ok(w2) = RaftWal::open_with_config(&wal, cfg) {
+                    if let Ok(rs) = RaftRecoveryState::from_wal(&w2) {
+                        cx.dist.hit("rotation.probe");
+                        if rs.current_term < 7 || rs.voted_for != Some(nid(1)) || rs.recovered_log.len() < 6 {
+                            hits.push(
+                                "wal-rotation",
+                                &format!("RaftWal max_size_bytes=120: TermAndVote{{7,n1}} + 6 entries all fsynced; after reopen RaftRecoveryState has term {} vote {:?} and {} log entries (everything before the last rotation is forgotten; reachable in RaftNode::with_wal only past the 1 GiB default)", rs.current_term, rs.voted_for, rs.recovered_log.len()),
+                                json!({"config": "raft_wal::WalConfig{max_size_bytes:120, ..default}", "written": "TermAndVote{7,n1}, LogEntryFull 1..6", "recovered_term": rs.current_term, "recovered_log_len": rs.recovered_log.len()}),
+                            );
+                        }
+                    }
+                }
+            }
+        }
+    }
     let _ = fs::remove_dir_all(args.out.join("scratch"));
     write_meta(
         &args.out,
@@ -564,6 +598,7 @@ fn main() {
             "property": "C10", "seed": args.seed, "tier": args.tier,
             "kinds": [cx.w.summary()],
             "distribution": cx.dist.json(),
+            "hits": hits.0,
             "nontrivial_rule": "a case with at least 2 protocol steps; the node is restarted from EVERY byte offset of what each generation appended to the real WAL file",
         }),
     );
